@@ -1182,9 +1182,14 @@ class Evaluator:
         for k in e.keywords:
             if k.arg is None:
                 v = s.ev(k.value, env, mod, depth)
-                if isinstance(v, dict) and all(isinstance(x, str) for x in v): kw.update(v)
+                if isinstance(v, dict) and all(isinstance(x, str) for x in v):
+                    dup_ = [x for x in v if x in kw]
+                    if dup_ and s._try_depth > 0: raise Raised('TypeError', f"got multiple values for keyword argument {dup_[0]!r}")
+                    kw.update(v)
                 else: kw['**'] = v
-            else: kw[k.arg] = s.ev(k.value, env, mod, depth)
+            else:
+                if k.arg in kw and s._try_depth > 0: raise Raised('TypeError', f"got multiple values for keyword argument {k.arg!r}")
+                kw[k.arg] = s.ev(k.value, env, mod, depth)
         if isinstance(f, ast.Attribute):
             return s.call_method(recv, f.attr, args, kw, mod, depth, e)
         return s.apply(fv, args, kw, mod, depth, e)
@@ -1433,6 +1438,8 @@ class Evaluator:
             pkw = {x.k[1]: x.k[2] for x in fv.k[2:] if isinstance(x, Opq) and x.k[0] == 'kw'}
             pkw.update(kw)
             return s.apply(base, pre + list(args), pkw, mod, depth, node)
+        if isinstance(fv, Opq) and fv.k and fv.k[0] in ('dictmethod', 'listmethod', 'strmethod') and len(fv.k) == 3:
+            return s.call_method(fv.k[2], fv.k[1], list(args), kw, mod, depth, node)        # a bound method of a container taken as a value
         if isinstance(fv, Opq) and fv.k and fv.k[0] == 'opget' and len(args) == 1 and not kw:
             kind, x = fv.k[1], args[0]
             if kind == 'item':
@@ -1853,6 +1860,19 @@ class Evaluator:
                 env[p] = Opq('?', 'missing-arg ' + p)
         return env
 
+    def exc_name_of(s, st, env, mod, depth):
+        """name of the exception class a raise statement raises: the class its expression EVALUATES to (raise error(msg) with `error` a variable
+        holding a class), else the name written"""
+        name = _exc_name(st)
+        e = st.exc
+        if e is None: return name
+        f_ = e.func if isinstance(e, ast.Call) else e
+        if isinstance(f_, ast.Name):
+            try: v = s.lookup(f_.id, env, mod)
+            except Exception: v = None
+            if isinstance(v, Ref) and v.kind in ('class', 'ext', 'builtin') and v.name: return v.name.split('.')[-1]
+        return name
+
     def block(s, stmts, env, mod, depth):
         """returns the value returned by the block (Cond tree), RAISE, or FALL (no return)"""
         for i, st in enumerate(stmts):
@@ -1860,7 +1880,7 @@ class Evaluator:
             if isinstance(st, ast.Return):
                 return s.ev(st.value, env, mod, depth) if st.value is not None else None
             if isinstance(st, ast.Raise):
-                s.last_raise = _exc_name(st)
+                s.last_raise = s.exc_name_of(st, env, mod, depth)
                 if s._try_depth > 0 and st.exc is not None: raise Raised(s.last_raise)
                 return RAISE
             if isinstance(st, ast.Continue): return FALL
@@ -1976,6 +1996,7 @@ class Evaluator:
                 return s.block(st.body + rest, env, mod, depth)
             elif isinstance(st, (ast.For, ast.While)):
                 lr = s.loop(st, env, mod, depth)
+                if lr is RAISE: return RAISE
                 if isinstance(lr, tuple) and lr and lr[0] == 'return-if':
                     # the loop returns lr[2] as soon as an element passes the test; otherwise what follows the loop happens
                     return s.block([ast.If(test=_TermNode(lr[1]), body=[ast.Return(value=_TermNode(lr[2]))], orelse=[])] + rest, env, mod, depth)
@@ -2083,7 +2104,7 @@ class Evaluator:
             if isinstance(it, (list, tuple)) and len(it) <= 24 and not st.orelse and not any(isinstance(n, (ast.Break, ast.Continue, ast.Return)) for n in ast.walk(st)):
                 for item in it:
                     s.assign(st.target, item, env, mod, depth)
-                    s.block(st.body, env, mod, depth)
+                    if s.block(st.body, env, mod, depth) is RAISE: return RAISE          # an iteration that raises ends the loop and the function
                 return
             if isinstance(it, (list, tuple)) and len(it) <= 24 and not st.orelse and not any(isinstance(n, ast.Return) for n in ast.walk(st)):
                 # the same with break / continue, as long as every exit test is decided for the concrete items
@@ -2586,8 +2607,19 @@ def _match_as_ifs(st):
         if isinstance(pat, ast.MatchOr):
             ts = [test(p_) for p_ in pat.patterns]
             return None if any(t is None for t in ts) else ast.BoolOp(op=ast.Or(), values=ts)
+        if isinstance(pat, ast.MatchClass) and not pat.patterns and not pat.kwd_patterns:
+            return ast.Call(func=ast.Name(id='isinstance', ctx=ast.Load()), args=[st.subject, pat.cls], keywords=[])        # case dict(): / case list():
+        if isinstance(pat, ast.MatchAs) and pat.pattern is None and pat.name is not None:
+            captures.append(pat.name)               # case x [if guard]: always matches, x is the subject
+            return ast.Constant(value=True)
+        if isinstance(pat, ast.MatchAs) and pat.pattern is not None and pat.name is not None:
+            t_ = test(pat.pattern)
+            if t_ is not None: captures.append(pat.name)
+            return t_
         return None
+    captures = []
     out = None; cur = None
+    pre = []
     for case in st.cases:
         wildcard = isinstance(case.pattern, ast.MatchAs) and case.pattern.pattern is None and case.pattern.name is None
         if wildcard and case.guard is None:
@@ -2595,13 +2627,15 @@ def _match_as_ifs(st):
             cur.orelse = list(case.body); cur = None; break
         t = test(case.pattern)
         if t is None: return None
-        if case.guard is not None: t = ast.BoolOp(op=ast.And(), values=[t, case.guard])
+        if case.guard is not None: t = case.guard if (isinstance(t, ast.Constant) and t.value is True) else ast.BoolOp(op=ast.And(), values=[t, case.guard])
         node = ast.If(test=t, body=list(case.body), orelse=[])
         ast.copy_location(node, case.body[0]); ast.fix_missing_locations(node)
         if out is None: out = node
         else: cur.orelse = [node]
         cur = node
-    return [out] if out is not None else []
+    # capture names are bound to the subject before the chain (they are fresh names of the match statement)
+    pre = [ast.fix_missing_locations(ast.copy_location(ast.Assign(targets=[ast.Name(id=n_, ctx=ast.Store())], value=st.subject), st)) for n_ in dict.fromkeys(captures)]
+    return pre + ([out] if out is not None else [])
 
 
 def _is_append(st):
@@ -2663,7 +2697,7 @@ def _is_callable_term(v):
     """a term that can be applied: function / class reference, closure, bound-method atom, partial application, getter object, callable record"""
     if isinstance(v, (Closure, Ref)): return True
     if isinstance(v, Poly) and v.as_atom() is not None: return True
-    if isinstance(v, Opq) and v.k and v.k[0] in ('partial', 'opget'): return True
+    if isinstance(v, Opq) and v.k and v.k[0] in ('partial', 'opget', 'dictmethod', 'listmethod', 'strmethod'): return True
     if isinstance(v, Rec) and v.clsref: return True
     return False
 
